@@ -137,3 +137,15 @@ Definition frame_check (allowed_prefixes : list bytes) (refused : bool) (before 
   | [] => []
   | l :: _ => [B "changed-outside-addressed:" ++ l]
   end.
+
+(* C09: every response is well formed (model-free oracle) ----------------------- *)
+From GF Require Import Model.Errors.
+Definition c09_response_ok (status : Z) (code : bytes) (panicked hung is_head : bool) (body_len : Z)
+    (body_is_error_doc : bool) : list bytes :=
+  expect (negb panicked) "panic" ++ expect (negb hung) "no-answer-within-deadline" ++
+  expect ((100 <=? status) && (status <=? 599)) "status-out-of-range" ++
+  (if (400 <=? status) && negb is_head && (0 <? body_len) then
+     expect body_is_error_doc "error-body-is-not-an-S3-error-document" ++
+     (if body_is_error_doc then expect (status =? status_of_code code) "status-inconsistent-with-code" else [])
+   else []).
+(* (a body written for a HEAD request is dropped by net/http and cannot be observed in-process) *)
